@@ -262,8 +262,9 @@ def run(F, rep, tier):
     except ImportError:
         rep.note("C01.R5 (arity tables) not built yet")
     rule_r6(F, rep)
-    from . import c19
+    from . import c19, c20
     c19.rule_r5(F, rep, "C19.R5")
+    c20.rule_r6(F, rep)
     rep.assume("evaluator data-stack balance, index/arithmetic-overflow panics and unreachable!() reachability are "
                "not decided (no whole-evaluator stack-effect typing)")
     return EXPLANATION
